@@ -18,13 +18,13 @@ let enc_sign = function Z0 -> 0 | Zpos _ -> 1 | Zneg _ -> -1
 let enc_str (v : n list) = List.length v :: List.map int_of_n v
 
 let unhex s =
-  if s = "-" then [] else
+  if s = "-" || s = "~" then [] else
   List.init (String.length s / 2) (fun i -> n_of_int (int_of_string ("0x" ^ String.sub s (2 * i) 2)))
 let hex (v : n list) =
   if v = [] then "-" else String.concat "" (List.map (fun b -> Printf.sprintf "%02x" (int_of_n b)) v)
 
 (* ---------------------------------------------------------------- block bookkeeping *)
-type block = { kind : char; h : n list; s : n list; verbose : bool; mutable hm : int; mutable ncalls : int; mutable hits : int }
+type block = { kind : char; h : n list; s : n list; lh : string; ls : string; verbose : bool; mutable hm : int; mutable ncalls : int; mutable hits : int }
 
 let call b (vals : int list) =
   let mix x = b.hm <- (b.hm * 1000003 + (x + 3)) land mask in
@@ -33,7 +33,7 @@ let call b (vals : int list) =
   if b.verbose then Printf.printf "C %d | m: %s\n" b.ncalls (String.concat "," (List.map string_of_int vals));
   b.ncalls <- b.ncalls + 1
 
-let finish b = Printf.printf "B %c %s %s %d %d %d\n" b.kind (hex b.h) (hex b.s) b.ncalls b.hm b.hits
+let finish b = Printf.printf "B %c %s %s %d %d %d\n" b.kind b.lh b.ls b.ncalls b.hm b.hits
 (* coverage probe: a substring search (find / rfind, non-empty needle) that found an occurrence *)
 let found b x = if x <> npos then b.hits <- b.hits + 1; enc_size x
 
@@ -44,8 +44,9 @@ let alpha5 = [0x00; 0x61; 0x62; 0x80; 0xFF]
 let res_size = function Ok r -> [r] | _ -> [-2]
 
 (* ---------------------------------------------------------------- block H *)
-let block_hay h verbose =
-  let b = { kind = 'H'; h; s = []; verbose; hm = 0; ncalls = 0; hits = 0 } in
+let block_hay ?(kind = 'H') ?lh ?(ls = "-") h verbose =
+  let lh = match lh with Some l -> l | None -> hex h in
+  let b = { kind; h; s = []; lh; ls; verbose; hm = 0; ncalls = 0; hits = 0 } in
   let len = List.length h in
   let p = positions len in
   call b [enc_size (size h); enc_size (size h); enc_bool (size h = N0)];
@@ -81,8 +82,9 @@ let block_hay h verbose =
   finish b
 
 (* ---------------------------------------------------------------- block P *)
-let block_pair h s verbose =
-  let b = { kind = 'P'; h; s; verbose; hm = 0; ncalls = 0; hits = 0 } in
+let block_pair ?lh ?ls h s verbose =
+  let lh = match lh with Some l -> l | None -> hex h and ls = match ls with Some l -> l | None -> hex s in
+  let b = { kind = 'P'; h; s; lh; ls; verbose; hm = 0; ncalls = 0; hits = 0 } in
   let len = List.length h in
   let p = positions len and f = few_positions len in
   let cs = of_cstr s in                         (* what a const char* overload sees: bytes before the first NUL *)
@@ -117,13 +119,57 @@ let block_pair h s verbose =
 
 (* ---------------------------------------------------------------- block C *)
 let block_cmp5 h s verbose =
-  let b = { kind = 'C'; h; s; verbose; hm = 0; ncalls = 0; hits = 0 } in
+  let b = { kind = 'C'; h; s; lh = hex h; ls = hex s; verbose; hm = 0; ncalls = 0; hits = 0 } in
   let lh = List.length h and ls = List.length s in
   let p = positions lh and q = positions ls in
   List.iter (fun pos1 -> List.iter (fun n1 -> List.iter (fun pos2 -> List.iter (fun n2 ->
     if (pos1 <> -1 && pos1 <= lh || n1 = 0 || n1 = -1) && (pos2 <> -1 && pos2 <= ls || n2 = 0 || n2 = -1) then
       call b (match compare5 h (arg pos1) (arg n1) s (arg pos2) (arg n2) with Ok z -> [enc_sign z] | _ -> [-2])) q) q) p) p;
   finish b
+
+(* ---------------------------------------------------------------- blocks M and A: views into one buffer *)
+let rec drop k l = if k <= 0 then l else match l with [] -> [] | _ :: t -> drop (k - 1) t
+let rec take k l = if k <= 0 then [] else match l with [] -> [] | x :: t -> x :: take (k - 1) t
+let sub buf o l = take l (drop o buf)
+
+let block_mid buf o l verbose =
+  if o + l > List.length buf then print_endline "? bad mid range"
+  else block_hay ~kind:'M' ~lh:(hex buf) ~ls:(Printf.sprintf "%d,%d" o l) (sub buf o l) verbose
+
+let block_alias buf o1 l1 o2 l2 verbose =
+  if o1 + l1 > List.length buf || o2 + l2 > List.length buf then print_endline "? bad alias range" else begin
+  let h = sub buf o1 l1 and s = sub buf o2 l2 in
+  let b = { kind = 'A'; h; s; lh = hex buf; ls = Printf.sprintf "%d,%d,%d,%d" o1 l1 o2 l2; verbose;
+            hm = 0; ncalls = 0; hits = 0 } in
+  let len = List.length h in
+  let p = positions len and f = few_positions len in
+  let cs = of_cstr (drop o2 buf) in             (* the C string at buf + o2: up to the first NUL or the terminator *)
+  let rel a x = [enc_bool (op_eq a x); enc_bool (op_ne a x); enc_bool (op_lt a x); enc_bool (op_gt a x);
+                 enc_bool (op_le a x); enc_bool (op_ge a x)] in
+  call b [enc_sign (compare0 h s)];
+  call b (rel h s);
+  call b (rel h cs);
+  call b (rel cs h);
+  call b [enc_sign (compare0 h cs)];
+  call b [enc_bool (starts_with h s)];
+  call b [enc_bool (ends_with h s)];
+  List.iter (fun pos ->
+    let a = arg pos in
+    call b [(if s <> [] then found b else enc_size) (find h s a)];
+    call b [(if s <> [] then found b else enc_size) (rfind h s a)];
+    call b [enc_size (find_first_of h s a)];
+    call b [enc_size (find_last_of h s a)];
+    call b [enc_size (find_first_not_of h s a)];
+    call b [enc_size (find_last_not_of h s a)]) p;
+  List.iter (fun pos ->
+    call b [enc_size (find h cs (arg pos))];
+    call b [enc_size (rfind h cs (arg pos))]) f;
+  List.iter (fun pos1 -> List.iter (fun n1 ->
+    call b (match compare3 h (arg pos1) (arg n1) s with Ok z -> [enc_sign z] | _ -> [-2])) f) f;
+  List.iter (fun pos1 -> List.iter (fun n1 -> List.iter (fun pos2 -> List.iter (fun n2 ->
+    call b (match compare5 h (arg pos1) (arg n1) s (arg pos2) (arg n2) with Ok z -> [enc_sign z] | _ -> [-2]))
+    [1; -1]) [0; 1]) [1; -1]) [0; 1];
+  finish b end
 
 (* ---------------------------------------------------------------- enumeration *)
 let all_strings alpha maxlen =
@@ -146,8 +192,23 @@ let () =
       match toks with
       | [] -> ()
       | k :: _ when k.[0] = '#' -> ()
-      | ["hay"; a] -> block_hay (unhex a) verbose
-      | ["pair"; a; b] -> block_pair (unhex a) (unhex b) verbose
+      | ["hay"; a] -> block_hay ?lh:(if a = "~" then Some "~" else None) (unhex a) verbose
+      | ["pair"; a; b] ->
+        block_pair ?lh:(if a = "~" then Some "~" else None) ?ls:(if b = "~" then Some "~" else None) (unhex a) (unhex b) verbose
+      | ["mid"; a; o; l] -> block_mid (unhex a) (int_of_string o) (int_of_string l) verbose
+      | ["alias"; a; o1; l1; o2; l2] ->
+        block_alias (unhex a) (int_of_string o1) (int_of_string l1) (int_of_string o2) (int_of_string l2) verbose
+      | ["aenum"; a; m1; m2; part; parts] ->
+        let alpha = unhex a in
+        let m1 = int_of_string m1 and m2 = int_of_string m2 in
+        let part = int_of_string part and parts = int_of_string parts in
+        List.iteri (fun bi buf ->
+          let n = List.length buf in
+          if n >= m1 && bi mod parts = part then
+            for o1 = 0 to n do for l1 = 0 to n - o1 do
+              block_mid buf o1 l1 false;
+              for o2 = 0 to n do for l2 = 0 to n - o2 do block_alias buf o1 l1 o2 l2 false done done
+            done done) (all_strings alpha m2)
       | ["cmp5"; a; b] -> block_cmp5 (unhex a) (unhex b) verbose
       | ["enum"; a; m1; m2; m3; m4; part; parts] ->
         let alpha = unhex a in
